@@ -318,6 +318,15 @@ class _P(object):
             self.i += 2
             n = self.toks[self.i - 1].text
             return Atom("lit", -(float(n) if "." in n else int(n)))
+        if t.kind in ("ident", "kw") and self.peek(1).kind == "punct" and \
+                self.peek(1).text == "(" and t.text.upper() not in ("VALUES", "IN", "SELECT"):
+            # a function / CAST expression: a computed value
+            fn = t.text.upper()
+            self.i += 1
+            start = self.i
+            self._skip_call()
+            return Atom("expr", "%s(%s)" % (fn, " ".join(
+                x.text for x in self.toks[start + 1:self.i - 1])))
         if t.kind == "ident":
             self.i += 1
             return Atom("col", t.text)
